@@ -419,7 +419,7 @@ def truncations(ctx):
     for fn in files:
         text, cuts = _file_cuts(fn)
         total += len(cuts)
-    stride = 1 if ctx.tier != 'quick' else max(1, total // 1500)
+    stride = 1 if ctx.tier != 'quick' else max(1, total // 1000)
     for k, fn in enumerate(files):
         text, cuts = _file_cuts(fn)
         step = 200
@@ -598,7 +598,14 @@ def _sweep_task(args):
 def sweeps(ctx):
     index = _known_index(ctx)
     budget = 4.0 if ctx.tier == 'quick' else 20.0
-    tasks = [('nesting', name, DEPTHS, budget) for name in NESTING] + [('width', name, WIDTHS, budget) for name in WIDTH] + [('token', name, TOKEN_SIZES_QUICK if ctx.tier == 'quick' else TOKEN_SIZES, budget) for name in TOKEN_WIDTH]
+    tasks = [('nesting', name, DEPTHS, budget) for name in NESTING] + [('width', name, WIDTHS, budget) for name in WIDTH]
+    if ctx.tier == 'quick':
+        # token-internal runs: the tokenizer does not depend on the position, so the quick tier leaves out the 'declaration value' copies of the string-like families
+        tnames = [n for n in TOKEN_WIDTH if n.startswith('number run') or not n.endswith(', declaration value')]
+        tasks += [('token', name, TOKEN_SIZES_QUICK, 1.5) for name in tnames]
+    else:
+        tnames = list(TOKEN_WIDTH)
+        tasks += [('token', name, TOKEN_SIZES, budget) for name in tnames]
     n = 0
     agg = {}
     worst = (0.0, None)
@@ -619,11 +626,13 @@ def sweeps(ctx):
                 _note(agg, fail, {'text': gen(d) if d <= 16 else f'<{name} at size {d}>', 'mode': mode, 'family': name, 'size': d})
     _report(ctx, 'nesting / width sweeps', agg, index)
     ctx.bounded.append({'name': 'nesting and width sweeps', 'evaluations': n, 'distinct_nontrivial': len(done),
-                        'rule': f'{len(NESTING)} nesting families (each of ( [ {{ and functions in selector, rule, at-rule prelude, value, property-name and priority position, balanced and cut off) at depths {DEPTHS} '
-                                f'and {len(WIDTH)} width families at sizes {WIDTHS}; whole contract per input; time clause: result within {budget:.0f} s of CPU time and t(2x)/t(x) <= {RATIO_LIMIT:.0f} '
+                        'rule': f'{len(NESTING)} nesting families (each of ( [ {{ and functions in selector, rule, at-rule prelude, value, property-name and priority position, balanced and cut off) at depths {DEPTHS}, '
+                                f'{len(WIDTH)} width families at sizes {WIDTHS} and {len(tnames)} token-internal families (runs of one character or escape inside a string / url( / comment - closed, cut by a line feed or by the '
+                                f'end of input - inside identifiers, at-keywords, hashes, function names, units, and digit runs in every numeric position) at sizes {TOKEN_SIZES_QUICK if ctx.tier == "quick" else TOKEN_SIZES}; '
+                                f'whole contract per input; time clause: result within {budget:.0f} s of CPU time ({"1.5" if ctx.tier == "quick" else f"{budget:.0f}"} s for token families) and t(2x)/t(x) <= {RATIO_LIMIT:.0f} '
                                 f'(times under {TIME_FLOOR * 1000:.0f} ms count as {TIME_FLOOR * 1000:.0f} ms); a family stops at the first size that misses the bound; distinct = (family, size) evaluated',
                         'samples': [{'family': 'value f( balanced', 'depth': 5, 'text': NESTING['value f( balanced'][1](5)}],
-                        'bound': f'depth <= 100, width <= 400; slowest family at full size: {worst[1]} {worst[0] * 1000:.0f} ms; {time.time() - t0:.1f} s wall', 'failing_sites': len(agg)})
+                        'bound': f'depth <= 100, width <= 400, token-internal runs <= 8192; slowest family at full size: {worst[1]} {worst[0] * 1000:.0f} ms; {time.time() - t0:.1f} s wall', 'failing_sites': len(agg)})
 
 
 # --------------------------------------------------------------------------------------------------------------------
@@ -885,3 +894,349 @@ def witnesses(ctx):
             continue  # sweep findings are reported by sweeps() from the measured family
         still = fail is not None and _known_id(index, fail['site'], fail['stage'], fail.get('frames', ()), fail['msg']) == kid
         ctx.known_finding(kid, still)
+
+
+# --------------------------------------------------------------------------------------------------------------------
+# domain 6: every sub-parser position x short token sequences over the extended alphabet
+NEW_SNIPPETS = [
+    # escaped structural characters: as a hex escape (with its terminating space) and as a character escape
+    '\\7b ', '\\7d ', '\\28 ', '\\29 ', '\\5b ', '\\5d ', '\\3b ', '\\22 ', '\\27 ', '\\3a ', '\\2c ', '\\40 ', '\\21 ', '\\2f ', '\\2a ', '\\5c ', '\\20 ', '\\0 ', '\\110000 ',
+    '\\{', '\\}', '\\(', '\\)', '\\[', '\\]', '\\;', '\\"', "\\'", '\\:', '\\,', '\\@', '\\!', '\\/', '\\*', '\\\\', '\\ ', 'a\\7d b', '-\\7b ', '#\\7d ', '@\\7d ', '.\\7d ', '\\7d (',
+    # margin boxes and the remaining reserved at-keywords, letter case and escapes in at-keywords
+    '@top-left', '@bottom-center', '@left-middle', '@top-right-corner', '@top-left{b:c}', '@IMPORT', '@Media', '@\\70 age', '@-x-y', '@',
+    # colour functions, priorities, media words, page pseudos
+    'hsl(', 'hsla(', 'rgba(', 'RGB(', 'expression(', 'alpha(', 'progid:x.y(', 'attr(', '!important', '! important', '!x', 'only', 'not', 'all', 'print', ':first', ':left', '::', 'n', '2n+1', 'odd',
+    # more number shapes, operators and characters
+    '+1', '-1', '.5', '1.', '1e3', '+.5e-3', '-a', '--x', '0', '00', '-', '/', '%', '&', '<', '?', '^', '`', '\t', '\r', '\f', '\r\n', '\x00', '\x7f', '\ufeff', '\\\n', '"\\\n"', "'s'", 'url("x")', "url('", 'url( x )',
+    'U+??', 'u+0-7F', '/**/', '*/', '<!', '--', 'progid:',
+]
+EXTENDED = ALPHABET + [x for x in NEW_SNIPPETS if x not in ALPHABET]
+assert len(EXTENDED) == len(set(EXTENDED))
+# one probe per token kind, for the longer sequences
+PROBES = ['a', '@x', '@import', '@top-left', '@page', '{', '}', '(', ')', '[', ']', ';', ':', ',', '!', '!important', '"s"', '"', 'url(x)', 'url(', 'f(', 'hsl(', 'var(', '1', '2px', '3%', '+', '-', '#abc', '#',
+          '/*c*/', '/*', ' ', '\n', '\\', '\\7d ', '\\{', '\\22 ', '.', '*', '=', 'U+1-2', '<!--', '\xe9']
+PROBES_QUICK = ['a', '@x', '@top-left', '{', '}', '(', ')', '[', ';', ':', ',', '!important', '"', 'url(', 'f(', 'hsl(', '1', '2px', '+', '#abc', '/*c*/', '/*', ' ', '\\', '\\7d ', '\\{', '.', '=', '<!--',
+                '\xe9']
+assert all(x in EXTENDED for x in PROBES) and all(x in PROBES for x in PROBES_QUICK)
+
+CONTEXTS = {   # name: (mode, text with one hole)
+    'sheet level': ('sheet', '{F}'),
+    'sheet level after a rule': ('sheet', 'a{b:c}{F}'),
+    'sheet level before a rule': ('sheet', '{F}a{b:c}'),
+    'selector': ('sheet', 'a {F} b{b:c}'),
+    'selector start': ('sheet', '{F}a,b{b:c}'),
+    'selector list item': ('sheet', 'a,{F},b{b:c}'),
+    'attribute selector': ('sheet', 'a[{F}]{b:c}'),
+    'attribute value': ('sheet', 'a[b={F}]{b:c}'),
+    'pseudo function argument': ('sheet', 'a:f({F}){b:c}'),
+    ':not argument': ('sheet', 'a:not({F}){b:c}'),
+    'nth argument': ('sheet', 'a:nth-child({F}){b:c}'),
+    'after pseudo colon': ('sheet', 'a:{F}{b:c}'),
+    'declaration block': ('sheet', 'a{{F}}'),
+    'declaration block after a declaration': ('sheet', 'a{b:c;{F}}'),
+    'declaration block unclosed': ('sheet', 'a{{F}'),
+    'property name': ('sheet', 'a{{F}:c}'),
+    'inside property name': ('sheet', 'a{b{F}:c}'),
+    'value': ('sheet', 'a{b:{F}}'),
+    'value after an item': ('sheet', 'a{b:c {F}}'),
+    'value before an item': ('sheet', 'a{b:{F} c}'),
+    'value unclosed': ('sheet', 'a{b:c {F}'),
+    'known property value': ('sheet', 'a{color:{F}}'),
+    'priority': ('sheet', 'a{b:c!{F}}'),
+    'after priority': ('sheet', 'a{b:c!important{F}}'),
+    'after priority with space': ('sheet', 'a{b:c !important {F};d:e}'),
+    'style attribute': ('style', '{F}'),
+    'style property name': ('style', '{F}:c'),
+    'style value': ('style', 'b:{F}'),
+    'style value after an item': ('style', 'b:c {F}'),
+    'style priority': ('style', 'b:c!{F}'),
+    'style after priority': ('style', 'b:c!important{F}'),
+    'style after declaration': ('style', 'b:c;{F}'),
+    'function argument': ('style', 'b:f({F})'),
+    'function argument unclosed': ('style', 'b:f({F}'),
+    'calc argument': ('style', 'b:calc({F})'),
+    'calc operand': ('style', 'b:calc(1 + {F})'),
+    'rgb argument': ('style', 'b:rgb({F})'),
+    'rgb argument in a sheet': ('sheet', 'a{b:rgb({F}'),
+    'hsl argument': ('style', 'b:hsl({F})'),
+    'hsla last argument': ('style', 'b:hsla(1,2%,3%,{F})'),
+    'var argument': ('style', 'b:var({F})'),
+    'var fallback': ('style', 'b:var(x,{F})'),
+    'url content': ('style', 'b:url({F})'),
+    'string content': ('style', 'b:"{F}"'),
+    'comment content': ('sheet', 'a{/*{F}*/b:c}'),
+    '@media query': ('sheet', '@media {F}{a{b:c}}'),
+    '@media after type': ('sheet', '@media all {F}{a{b:c}}'),
+    '@media feature': ('sheet', '@media all and ({F}){a{b:c}}'),
+    '@media feature value': ('sheet', '@media all and (min-width:{F}){a{b:c}}'),
+    '@media second query': ('sheet', '@media all,{F}{a{b:c}}'),
+    '@media block': ('sheet', '@media all{{F}}'),
+    '@media block after a rule': ('sheet', '@media all{a{b:c}{F}}'),
+    '@media block unclosed': ('sheet', '@media all{{F}'),
+    'after @media': ('sheet', '@media all{a{b:c}}{F}'),
+    '@import prelude': ('sheet', '@import {F};'),
+    '@import after href': ('sheet', '@import "x" {F};'),
+    '@import after url': ('sheet', '@import url(x) all {F};'),
+    '@import unclosed': ('sheet', '@import "x" {F}'),
+    '@namespace prelude': ('sheet', '@namespace {F};'),
+    '@namespace after prefix': ('sheet', '@namespace p {F};'),
+    '@namespace after uri': ('sheet', '@namespace p "u" {F};'),
+    '@charset prelude': ('sheet', '@charset {F};'),
+    '@charset after encoding': ('sheet', '@charset "utf-8"{F};a{b:c}'),
+    '@page selector': ('sheet', '@page {F}{b:c}'),
+    '@page pseudo': ('sheet', '@page :{F}{b:c}'),
+    '@page named pseudo': ('sheet', '@page n:first {F}{b:c}'),
+    '@page block': ('sheet', '@page {{F}}'),
+    '@page block after a declaration': ('sheet', '@page {b:c;{F}}'),
+    'margin box block': ('sheet', '@page {@top-left{{F}}}'),
+    'margin box prelude': ('sheet', '@page {@top-left {F}{b:c}}'),
+    '@font-face prelude': ('sheet', '@font-face {F}{b:c}'),
+    '@font-face block': ('sheet', '@font-face{{F}}'),
+    '@variables prelude': ('sheet', '@variables {F}{x:1}'),
+    '@variables block': ('sheet', '@variables {{F}}'),
+    '@variables value': ('sheet', '@variables {x:{F}}'),
+    'unknown rule prelude': ('sheet', '@x {F};'),
+    'unknown rule prelude before a block': ('sheet', '@x {F}{a:b}'),
+    'unknown rule block': ('sheet', '@x {{F}}'),
+    'unknown rule nested block': ('sheet', '@x {a{{F}}}'),
+    'unknown rule unclosed': ('sheet', '@x {F}'),
+    'unknown rule in a declaration block': ('sheet', 'a{@x {F};b:c}'),
+    'unknown rule in @media': ('sheet', '@media all{@x {F};a{b:c}}'),
+    'after CDO': ('sheet', '<!--{F}-->'),
+}
+
+
+def _context_task(args):
+    names, first, rest, pool_name = args
+    pool = {'extended': EXTENDED, 'probes': PROBES, 'quick probes': PROBES_QUICK}[pool_name]
+    agg = {}
+    sigs = set()
+    n = 0
+    for tup in itertools.product(pool, repeat=rest):
+        filler = first + ''.join(tup)
+        for cname in names:
+            mode, tmpl = CONTEXTS[cname]
+            text = tmpl.replace('{F}', filler)
+            n += 1
+            fail, sig, t = run_case(mode, text)
+            if sig is not None:
+                sigs.add((cname, sig))
+            if fail is not None:
+                _note(agg, fail, {'text': text, 'mode': mode, 'context': cname, 'filler': filler})
+    return n, agg, sigs
+
+
+def contexts(ctx):
+    index = _known_index(ctx)
+    names = list(CONTEXTS)
+    tasks = [(names, '', 0, 'extended')]
+    if ctx.tier == 'quick':
+        # every single extended snippet everywhere; every pair and triple... of probes: pairs only
+        tasks += [(names, x, 0, 'extended') for x in EXTENDED]
+        tasks += [(names, x, 1, 'quick probes') for x in PROBES_QUICK]
+        desc = f'every filler of one snippet of the extended alphabet ({len(EXTENDED)} snippets) and every pair of {len(PROBES_QUICK)} probe snippets (one per token kind)'
+    else:
+        tasks += [(names[i::4], x, 1, 'extended') for x in EXTENDED for i in range(4)] + [(names, x, 0, 'extended') for x in EXTENDED]
+        tasks += [(names[i::4], x + y, 1, 'probes') for x in PROBES for y in PROBES for i in range(4)]
+        desc = f'every filler of <= 2 snippets of the extended alphabet ({len(EXTENDED)} snippets) and every triple of the {len(PROBES)} probe snippets'
+    agg = {}
+    sigs = set()
+    n = 0
+    t0 = time.time()
+    with _pool(ctx) as pool:
+        for k, a, s in pool.imap_unordered(_context_task, tasks, chunksize=1):
+            n += k
+            _merge(agg, a)
+            sigs |= s
+    _report(ctx, 'sub-parser positions', agg, index)
+    ctx.bounded.append({'name': 'sub-parser positions x fillers', 'evaluations': n, 'distinct_nontrivial': len(sigs), 'exhaustive': True,
+                        'rule': f'{len(CONTEXTS)} positions (sheet level, selector, attribute, pseudo argument, declaration block, property name, value, priority and after it, function / calc / colour / var / url '
+                                'arguments, string and comment content, every part of @media / @import / @namespace / @charset / @page / margin box / @font-face / @variables / unknown rules) x ' + desc +
+                                '; the extended alphabet adds escaped structural characters (hex and character escapes), margin-box and case/escape variants of at-keywords, colour functions, priorities, '
+                                'number shapes, control characters; distinct = (position, DOM shape)',
+                        'samples': [{'context': 'style after priority', 'text': 'b:c!important@x'}, {'context': 'unknown rule prelude', 'text': '@x \\7d ;'}],
+                        'bound': f'{len(CONTEXTS)} positions; {time.time() - t0:.1f} s wall', 'failing_sites': len(agg)})
+
+
+# --------------------------------------------------------------------------------------------------------------------
+# domain 7: colour functions with every short argument list
+COLOUR_FUNCTIONS = ['rgb(', 'rgba(', 'hsl(', 'hsla(', 'RGB(', 'HSLA(']
+COLOUR_ARGS_QUICK = ['', '+', '-', '1', '2%', 'a', '/*c*/']
+COLOUR_ARGS = COLOUR_ARGS_QUICK + ['+1', '-2%', '1px', '"s"', '.5', '1e3', 'f(1)', '#abc', '!']
+COLOUR_ENDS = [')', '', ');', ' ', ')}', ') !important']   # the quick tier uses the first four
+
+
+def _colour_task(args):
+    fn, first, maxargs, pool_name = args
+    pool = COLOUR_ARGS_QUICK if pool_name == 'quick' else COLOUR_ARGS
+    agg = {}
+    n = 0
+    kinds = set()
+    for k in range(0, maxargs):
+        for tup in itertools.product(pool, repeat=k):
+            argl = (first,) + tup
+            for sep in ((',', ' ') if pool_name == 'quick' else (',', ' ', ' , ')):
+                if len(argl) == 1 and sep != ',':
+                    continue
+                inner = sep.join(argl)
+                for end in (COLOUR_ENDS[:4] if pool_name == 'quick' else COLOUR_ENDS):
+                    for mode, pre in (('sheet', 'a{b:'), ('style', 'b:'), ('style', 'color:'), ('sheet', '@variables {x:'))[:3 if pool_name == 'quick' else 4]:
+                        text = pre + fn + inner + end
+                        n += 1
+                        kinds.add((fn.lower(), len(argl), end))
+                        fail, sig, t = run_case(mode, text)
+                        if fail is not None:
+                            _note(agg, fail, {'text': text, 'mode': mode})
+    return n, agg, kinds
+
+
+def colour_functions(ctx):
+    index = _known_index(ctx)
+    maxargs, pool_name = (3, 'quick') if ctx.tier == 'quick' else (4, 'full')
+    pool = COLOUR_ARGS_QUICK if pool_name == 'quick' else COLOUR_ARGS
+    tasks = [(fn, first, maxargs, pool_name) for fn in COLOUR_FUNCTIONS for first in pool]
+    agg = {}
+    kinds = set()
+    n = 0
+    with _pool(ctx) as pool_:
+        for k, a, s in pool_.imap_unordered(_colour_task, tasks, chunksize=1):
+            n += k
+            _merge(agg, a)
+            kinds |= s
+    _report(ctx, 'colour functions', agg, index)
+    ctx.bounded.append({'name': 'colour functions', 'evaluations': n, 'distinct_nontrivial': len(kinds), 'exhaustive': True,
+                        'rule': f'{COLOUR_FUNCTIONS} x all argument lists of 1..{maxargs} items over {pool} (empty, sign-only, number, percentage, ident, comment, ...) x separators comma / space x '
+                                f'endings {COLOUR_ENDS} (closed, cut off, ...) as rule value, style attribute value, known property and @variables value; distinct = (function, number of arguments, ending)',
+                        'samples': [{'text': 'a{b:hsl(+,+,+)}'}, {'text': 'a{b:hsl('}], 'bound': f'<= {maxargs} arguments', 'failing_sites': len(agg)})
+
+
+# --------------------------------------------------------------------------------------------------------------------
+# domain 8: every at-keyword in every block position
+def at_keywords():
+    from cssutils.css import MarginRule
+    margins = sorted(MarginRule.margins)
+    reserved = ['@charset', '@charset ', '@import', '@namespace', '@media', '@page', '@font-face', '@variables']
+    other = ['@x', '@-moz-document', '@keyframes', '@supports', '@TOP-LEFT', '@Top-Left-Corner', '@\\74op-left', '@IMPORT', '@Font-Face', '@top-leftx', '@top']
+    return margins + reserved + other
+
+
+AT_TAILS = ['', ';', '{}', '{b:c}', ' {b:c}', ' x;', ' "s";', '{', ' x{b:c}', '{b:c;@top-left{d:e}}', ':first{b:c}', ' all{a{b:c}}', '}', ' url(x);']
+AT_POSITIONS = {
+    'sheet level': ('sheet', '{F}'),
+    'sheet level after a rule': ('sheet', 'a{b:c}{F}'),
+    'sheet level before a rule': ('sheet', '{F}a{b:c}'),
+    'after @import': ('sheet', '@import "x";{F}'),
+    'inside @media': ('sheet', '@media all{{F}}'),
+    'inside @media after a rule': ('sheet', '@media all{a{b:c}{F}}'),
+    'inside @page': ('sheet', '@page {{F}}'),
+    'inside @page after a declaration': ('sheet', '@page {b:c;{F}}'),
+    'inside a margin box': ('sheet', '@page {@top-left{{F}}}'),
+    'inside a declaration block': ('sheet', 'a{{F}}'),
+    'inside a declaration block after a declaration': ('sheet', 'a{b:c;{F};d:e}'),
+    'inside @font-face': ('sheet', '@font-face{{F}}'),
+    'inside @variables': ('sheet', '@variables{{F}}'),
+    'inside an unknown rule': ('sheet', '@x{{F}}'),
+    'style attribute': ('style', '{F}'),
+    'style attribute after a declaration': ('style', 'b:c;{F}'),
+    'in a value': ('style', 'b:{F}'),
+    'in a selector': ('sheet', 'a {F} b{c:d}'),
+    'after CDO': ('sheet', '<!--{F}'),
+}
+
+
+def _atkw_task(kw):
+    agg = {}
+    n = 0
+    for tail in AT_TAILS:
+        for pname, (mode, tmpl) in AT_POSITIONS.items():
+            text = tmpl.replace('{F}', kw + tail)
+            n += 1
+            fail, sig, t = run_case(mode, text)
+            if fail is not None:
+                _note(agg, fail, {'text': text, 'mode': mode, 'position': pname})
+    return n, agg
+
+
+def at_keyword_positions(ctx):
+    index = _known_index(ctx)
+    kws = at_keywords()
+    agg = {}
+    n = 0
+    with _pool(ctx) as pool:
+        for k, a in pool.imap_unordered(_atkw_task, kws, chunksize=1):
+            n += k
+            _merge(agg, a)
+    _report(ctx, 'at-keywords in block positions', agg, index)
+    ctx.bounded.append({'name': 'at-keywords x positions', 'evaluations': n, 'distinct_nontrivial': len(kws) * len(AT_POSITIONS), 'exhaustive': True,
+                        'rule': f'{len(kws)} at-keywords (all 16 margin boxes, the 8 reserved ones, unknown, vendor, letter-case and escaped spellings) x {len(AT_TAILS)} continuations (nothing, ;, empty / filled / '
+                                f'unclosed block, prelude, nested margin box, ...) x {len(AT_POSITIONS)} positions (sheet level, inside @media / @page / margin box / declaration block / @font-face / @variables / '
+                                'unknown rule, style attribute, value, selector); distinct = (at-keyword, position)',
+                        'samples': [{'text': '@top-left{b:c}'}, {'text': '@media all{@bottom-center{b:c}}'}], 'bound': 'fixed lists, full product', 'failing_sites': len(agg)})
+
+
+# --------------------------------------------------------------------------------------------------------------------
+# domain 9: @charset naming every codec Python ships, for text input and after assignment to sheet.encoding
+def codec_names():
+    import encodings
+    import pkgutil
+    names = sorted(m.name for m in pkgutil.iter_modules(encodings.__path__) if m.name not in ('aliases',))
+    return names + ['css', 'utf-8', 'UTF-8', 'utf8', 'latin1', 'us-ascii', 'utf-16', 'utf-32', 'base-64', 'hex', 'rot-13', 'x-nonsense', '', ' ', 'utf-8 ', 'u\\74 f-8']
+
+
+def _charset_task(name):
+    """text input '@charset "<name>"; ...' through the whole contract; then the same sheet with sheet.encoding = name (a DOM exception is a rejection)"""
+    import xml.dom
+    st = _setup()
+    cssutils = st['cssutils']
+    agg = {}
+    n = 0
+    for body in ('a{b:c}', 'a{content:"\xe9€"}', ''):
+        text = f'@charset "{name}";{body}'
+        n += 1
+        fail, sig, t = run_case('sheet', text)
+        if fail is not None:
+            _note(agg, fail, {'text': text, 'mode': 'sheet', 'codec': name})
+        # assignment
+        n += 1
+        stage = 'parse'
+        try:
+            signal.setitimer(signal.ITIMER_PROF, CASE_TIMEOUT)
+            sheet = cssutils.parseString(body)
+            stage = 'assign'
+            try:
+                sheet.encoding = name
+            except xml.dom.DOMException:
+                pass
+            stage = 'serialise'
+            out = sheet.cssText
+            stage = 'reparse'
+            again = cssutils.parseString(out)
+            stage = 'reserialise'
+            again.cssText
+        except _Timeout:
+            _note(agg, {'stage': stage, 'site': ('Timeout', 'time', stage), 'msg': 'no result in time'}, {'text': body, 'mode': 'sheet', 'assigned_encoding': name})
+        except BaseException as e:
+            if isinstance(e, (KeyboardInterrupt, SystemExit)):
+                raise
+            _note(agg, _fail(stage, e), {'text': body, 'mode': 'sheet', 'assigned_encoding': name})
+        finally:
+            signal.setitimer(signal.ITIMER_PROF, 0)
+            cssutils.log.raiseExceptions = True
+    return n, agg
+
+
+def charsets(ctx):
+    index = _known_index(ctx)
+    names = codec_names()
+    agg = {}
+    n = 0
+    with _pool(ctx) as pool:
+        for k, a in pool.imap_unordered(_charset_task, names, chunksize=4):
+            n += k
+            _merge(agg, a)
+    _report(ctx, '@charset naming Python codecs', agg, index)
+    ctx.bounded.append({'name': '@charset x Python codecs', 'evaluations': n, 'distinct_nontrivial': len(names), 'exhaustive': True,
+                        'rule': f'every codec module of the encodings package plus aliases and non-names ({len(names)} names, among them the non-text codecs base64, bz2, hex, quopri, rot13, uu, zlib, idna, punycode, '
+                                'undefined, unicode_escape, and cssutils\' own css codec) as @charset "<name>"; in a text input with an ASCII, a non-ASCII and an empty body (whole contract), and assigned to '
+                                'sheet.encoding of the parsed body (a DOM exception is a rejection) followed by cssText, re-parse, cssText; distinct = codec name',
+                        'samples': [{'text': '@charset "base64"; a{b:c}'}], 'bound': 'all codecs of the running Python', 'failing_sites': len(agg)})
